@@ -94,6 +94,17 @@ theorem hmc_row_mem (logp : V → F) (grad : V → V) (ke : V → F) (eps half :
   · right; rfl
   · left; rfl
 
+/-- **"nor to a position with non-finite coordinates"** for HMC: if the target assigns a NaN / −inf density to every position
+    outside a set `Good`, a row ends at its previous position or at a position in `Good` (for every draw except `u = 0`). -/
+theorem hmc_good_position (logp : V → F) (grad : V → V) (ke : V → F) (eps half : F) (Ln : Nat) (x p : V) (lnu : F)
+    (hu : ¬ L.IsNegInf lnu) (Good : V → Prop) (hgood : ∀ y : V, ¬ Good y → L.Bad (logp y)) :
+    (hmcStepRow logp grad ke eps half Ln x p lnu).1 = x ∨ Good (hmcStepRow logp grad ke eps half Ln x p lnu).1 := by
+  by_cases hg : Good (leapfrogCode grad eps half Ln (x, p, (eps * half) • grad x)).1
+  · rcases hmc_row_mem logp grad ke eps half Ln x p lnu with h | h
+    · exact Or.inl h
+    · right; rw [h]; exact hg
+  · exact Or.inl (hmc_never_bad logp grad ke eps half Ln x p lnu hu (hgood _ hg))
+
 end HMC
 
 namespace NUTS
